@@ -20,13 +20,15 @@ T0 == 1000000
 
 Bytes4(p) == <<p[1] \div 256, p[1] % 256, p[2] \div 256, p[2] % 256>>
 \* segment: [ep |-> "c"|"s", syn, ack : BOOLEAN, ts : pair, t : ms]
-SegHdr(s, hiports) ==
-  LET base == BaseHdr(4)
+SegHdr(s, hiports, ver) ==
+  LET base == BaseHdr(ver)
+      Src == IF ver = 4 THEN Src4 ELSE Src6
+      Dst == IF ver = 4 THEN Dst4 ELSE Dst6
       cport == s.cp
       sport == IF hiports THEN 8080 ELSE s.sp
       fl == (IF s.syn THEN SYN ELSE 0) + (IF s.ack THEN ACK ELSE 0)
       ol == [opts |-> <<[k |-> "nop"], [k |-> "nop"], [k |-> "ts", val |-> Bytes4(s.ts), ecr |-> Zero4]>>, trail |-> <<>>]
-  IN WithOpts([base EXCEPT !.src = IF s.ep = "c" THEN Src4 ELSE Dst4, !.dst = IF s.ep = "c" THEN Dst4 ELSE Src4,
+  IN WithOpts([base EXCEPT !.src = IF s.ep = "c" THEN Src ELSE Dst, !.dst = IF s.ep = "c" THEN Dst ELSE Src,
                            !.sport = IF s.ep = "c" THEN cport ELSE sport, !.dport = IF s.ep = "c" THEN sport ELSE cport,
                            !.flags = fl, !.ack = IF s.ack THEN <<0, 0, 0, 9>> ELSE Zero4], OptArea(ol))
 
@@ -94,10 +96,12 @@ RoleCase(k) ==
 CaseOf(k) == CASE Fam = "role" -> RoleCase(k) [] Fam = "freq" -> FreqCase(k) [] Fam = "both" -> BothCase(k) [] Fam = "bad" -> BadCase(k) [] Fam = "back" -> BackCase(k)
 NOf == CASE Fam = "role" -> NRole [] Fam = "freq" -> NFreq [] Fam = "both" -> NBoth [] Fam = "bad" -> NBad [] Fam = "back" -> NBack
 
+\* the address family does not matter to the estimate, its attribution or its label: odd cases travel over IPv6
+VerOf(k) == IF k % 2 = 1 THEN 6 ELSE 4
 Emit(k) ==
   LET segs == CaseOf(k) IN
   PrintT("REPLAY " \o ToJson([fam |-> Fam, k |-> k, segs |-> segs, clock |-> [i \in 1..Len(segs) |-> segs[i].t],
-                               frames |-> [i \in 1..Len(segs) |-> Frame("eth", SegHdr(segs[i], FALSE))], exp |-> Expect(segs)]))
+                               frames |-> [i \in 1..Len(segs) |-> Frame("eth", SegHdr(segs[i], FALSE, VerOf(k)))], exp |-> Expect(segs)]))
 
 Mine(s) == {j \in 0..((NOf - 1 - Offset) \div Stride) : j % Shards = s}
 Init == shard \in 0..(Shards - 1) /\ phase = 0
